@@ -50,6 +50,7 @@ class Contract:
 	max_paths: int = 4000
 	consts: dict[str, Any] = field(default_factory=dict)  # named constants usable in clause text
 	dispatch: str | None = None  # dynamic class of the receiver (virtual dispatch of self.m()); key becomes qualname@dispatch
+	raise_unchanged: list[str] = field(default_factory=list)  # exception classes on whose raise the receiver is left unchanged (an obligation of the function, a fact for its callers)
 	witness: str | None = None  # module-level function () -> (bool, str): demonstrates a failed obligation of this contract on the real system (pipeline replay)
 	native_requires: list[str] = field(default_factory=list)  # preconditions evaluated only natively (bounded twin / replay)
 	bounded_ensures: list[str] = field(default_factory=list)  # clauses checked only by the bounded twin (never counted as proved)
